@@ -262,6 +262,8 @@ def lf(k, i, s, ci=False):
     elif k == 3:
         return fl3(i)
     elif k == 4:
+        if ci:
+            return 'ab' if i > 0 else ''      # (constructing a str subclass from a symbolic str realises it without end)
         if len(s) > STR_MAX:
             raise OutOfBound()
         return s
